@@ -73,6 +73,17 @@ def validate_one(args):
         if e["fs"] is None or e["dt"] is None or any(t is None for t in e["T"]):
             return {"idx": idx, "accepted": False, "reached": evs.index(e), "n": len(evs), "why": "a sampling attribute is not a small rational: "
                     + json.dumps(e["raw"])}
+    # TLC's integers are 32-bit: the trace specification compares rationals by cross-multiplication with the model's values
+    # (durations <<samples x decimation, Fs0>>, rates <<Fs0, decimation>>); a logged value whose cross products would
+    # overflow cannot equal any value of the model and is rejected here (TLC would stop with an overflow error instead)
+    lim, nmax, qmax, f0 = 2 ** 31 - 1, 2 * max(tr["n0"]) + 16, 4096, max(1, int(abs(tr["fs0"])) + 1)
+    for k, e in enumerate(evs):
+        bad = (any(abs(t[1]) * nmax > lim or abs(t[0]) * f0 > lim for t in e["T"])
+               or abs(e["fs"][0]) * qmax > lim or abs(e["fs"][1]) * f0 > lim
+               or abs(e["dt"][0]) * f0 > lim or abs(e["dt"][1]) * qmax > lim)
+        if bad:
+            return {"idx": idx, "accepted": False, "reached": k, "n": len(evs),
+                    "why": "a sampling attribute is not a value the model can take (cross products overflow 32 bits): " + json.dumps(e.get("raw"))}
     fs0 = tr["fs0"]
     if abs(fs0 - round(fs0)) > 0:
         return {"idx": idx, "machinery": f"non-integer initial sampling frequency {fs0} is outside TraceSetup's integer model"}
